@@ -1018,7 +1018,8 @@ func (c *EvalCtx) call(v *ECall) TV {
 		}
 		if rt, ok := c.prog.specFnRetType[v.Fun]; ok {
 			// only pointer results keep their Go type (so that fields can be selected); other results stay spec-level
-			if _, isPtr := rt.Underlying().(*types.Pointer); isPtr {
+			switch rt.Underlying().(type) {
+			case *types.Pointer, *types.Slice:
 				return c.typed(SymApp(v.Fun, f.Ret, a...), rt)
 			}
 		}
